@@ -13,7 +13,7 @@ LEVEL_TEXT = ("Proved in Coq for every signature scheme/encoding satisfying the 
               "succeed, timestamps strictly increase, messages are yielded by subscribers), C16_no_two_equal_messages, "
               "C16_premises_satisfiable, C16_oracle_pub_sound. Tied to p2panda/src/streams/ephemeral_stream.rs on every run through the real "
               "decode/verify path of a subscription built with the crate's own constructor: honest, field-tampered (every field), re-signed "
-              "(other key, same claimed author), damaged-signature, foreign-signature messages; byte-level tampering of honest messages at "
+              "(other key, same claimed author), damaged-signature, foreign-signature messages, really published messages with one field changed; byte-level tampering of honest messages at "
               "every byte position, every truncation, trailing bytes; the real publisher under a scripted mock clock (forwards, equal, "
               "backwards) with its bytes decoded, compared and fed back into a subscription.")
 LEVEL_NOTE = ("Trusted (premises of the theorems, not verified): Ed25519 verify accepts exactly the key owner's signature and signatures do "
@@ -27,7 +27,8 @@ ASSUMPTIONS = ["ideal signatures: verify pk m s = true <-> s = sign (sk_of pk) m
 TRUSTED = ["modelled not verified: Ed25519, ciborium encode/decode (byte level), the gossip overlay between publish and subscriptions (replaced by local channels through cfg hooks)"]
 RULE = ("quick: ~300 forge cases (honest + each single field of version/author/time/logical/body changed after signing, re-signed by "
         "another key, damaged signature, signature of another message; boundary timestamps; random mixes), byte tampering of 2 honest "
-        "messages at every position 0..149 x 3 masks + every truncation + trailing bytes, 150 publisher scripts (<= 8 publishes, equal "
+        "messages at every position 0..149 x 3 masks + every truncation + trailing bytes, 120 remix cases (a really published message, one field "
+        "changed under the original signature), 150 publisher scripts (<= 8 publishes, equal "
         "bodies, clock earlier/equal/later, boundaries); thorough: 2500 forge, 4 messages x 9 masks, 1500 scripts (<= 30 publishes). "
         "non-trivial = a tampered/re-signed/forged message, or a publisher script with >= 2 publishes containing a clock reading not "
         "later than the previous timestamp")
